@@ -854,6 +854,9 @@ pub fn generate_run_softfork_args(_rng: &mut Rng, _n: usize, _tier: &str) -> Vec
         vec![], vec![0x00], vec![0x00, 0x00], vec![0x00, 0x01], vec![0x00, 0x80], vec![0x01], vec![0x02], vec![0x7f], vec![0x80],
         vec![0xff], vec![0x80, 0x00], vec![0x00, 0xc8], vec![0x00, 0xff, 0xff, 0xff, 0xff], vec![0x00, 0xff, 0xff, 0xff, 0xff, 0xff, 0xff, 0xff, 0xff],
         vec![0x01, 0, 0, 0, 0, 0, 0, 0, 0], vec![0x00, 0x00, 0xc8],
+        // one byte longer than the integer type, with the sign byte in front: must not be accepted by wrapping
+        vec![0x00, 0x80, 0, 0, 0, 0, 0, 0, 0x00, 0xa1], vec![0x00, 0x80, 0, 0, 0, 0, 0, 0, 0x00, 0xc8], vec![0x00, 0xff, 0, 0, 0, 0, 0, 0, 0x00, 0xb5],
+        vec![0x00, 0x80, 0x00, 0x00, 0x00, 0x00], vec![0x00, 0x80, 0x00, 0x00, 0x00, 0x01],
     ];
     let costs: Vec<Vec<u8>> = vec![vec![0x00, 0xc8], vec![0x00, 0xa1], vec![0x00, 0xb5]];
     let mut out = vec![];
@@ -876,7 +879,7 @@ pub fn generate_run_softfork_args(_rng: &mut Rng, _n: usize, _tier: &str) -> Vec
 /// comparisons must not be done in a narrower or signed type
 pub fn huge_cost_corpus() -> Vec<(T, T)> {
     let mut out = vec![];
-    for declared in [(1u128 << 63) - 200, (1 << 63) - 81, 1 << 63, (1 << 63) + 1000, (1 << 64) - 1000, (1 << 62) + 7, (1 << 32) + 5] {
+    for declared in [(1u128 << 63) - 200, (1 << 63) - 81, 1 << 63, (1 << 63) + 1000, (1 << 64) - 1000, (1 << 64) - 1, (1 << 64) - 21, (1 << 62) + 7, (1 << 32) + 5] {
         let mut b = declared.to_be_bytes().to_vec();
         while b.len() > 1 && b[0] == 0 && b[1] & 0x80 == 0 {
             b.remove(0);
@@ -884,6 +887,8 @@ pub fn huge_cost_corpus() -> Vec<(T, T)> {
         for ext in [9i128, 2] {
             out.push((call(36, vec![quote(T::Atom(b.clone())), quote(int(ext)), quote(int(0)), quote(int(0))]), T::nil()));
         }
+        // wrong argument count: in lenient mode the declared cost is charged and nil returned
+        out.push((call(36, vec![quote(T::Atom(b.clone()))]), T::nil()));
     }
     out
 }
